@@ -13,7 +13,7 @@ ASSUMPTIONS = ['rank mode is sound given C04', 'std models are transcriptions of
 
 def groups(tier):
     K = 2 if tier == 'quick' else 3
-    gs = [{'name': 'rank-%dx1' % ka, 'fn': rank_group, 'args': {'ka': ka}} for ka in range(1, K + 1)]
+    gs = [{'name': 'rank-%dx1' % ka, 'fn': rank_group, 'rank_fallback': True, 'args': {'ka': ka}} for ka in range(1, K + 1)]
     gs += [{'name': 'self-%d' % ka, 'fn': self_group, 'args': {'ka': ka}} for ka in range(1, K + 1)]
     gs += [{'name': 'hybrid-%dx1' % ka, 'fn': hybrid_group, 'args': {'ka': ka}} for ka in range(1, K + 1)]
     gs.append(validation_group(('allows_all',), tier))
@@ -42,8 +42,8 @@ def judge_all(case):
     return prog, judge
 
 
-def rank_group(s, ka):
-    h = s.harness(L=1, cap_bs=max(2 * ka, 2), rank_bits=bits_for(2 * (ka + 1) + 1))
+def rank_group(s, ka, hybrid=False):
+    h = s.harness(L=1, cap_bs=max(2 * ka, 2), rank_bits=bits_for(2 * (ka + 1) + 1), hybrid=hybrid, field_bits=(3 if hybrid else 0))
     A, _ = h.range_('A', ka, allow_any=True)
     B, Bbs = h.range_('B', 1, allow_any=True)
     v = h.version('v')
